@@ -541,6 +541,16 @@ func (f *sessionFam) armedCauses(w *World, a string, seq int) map[string]bool {
 		if c.LatencyMs*2 >= pt {
 			armed["ping timeout"] = true
 		}
+		if c.EIO != 4 && c.V3PingMs > 0 {
+			pi := f.sc.Opts.PingIntervalMs
+			if pi == 0 {
+				pi = 25000
+			}
+			// a revision-3 client that pings about as rarely as the deadline allows
+			if c.V3PingMs+4*c.LatencyMs+c.PollGapMs+2 >= pi+pt {
+				armed["ping timeout"] = true
+			}
+		}
 		if len(c.Raw) > 0 || len(c.Cand) > 0 {
 			// a raw client is not bound by the protocol
 			if len(c.Raw) > 0 {
